@@ -46,9 +46,13 @@ RULE = ('one bucket per name exported by algopy.nthderiv (enumerated at run time
 ASSUMPTIONS = [
     'mpmath.diff at 45 digits (working precision (45 digits + 20 bits)*(n+1)) is the reference for the n-th derivative; '
     'mpmath, NumPy and SciPy are trusted',
-    'tolerance 1e-9 * max(1, |f^(n)(x)|, |x f^(n+1)(x)|) (hyperu 1e-7: accuracy of scipy.special.hyperu): relative to the '
-    'result or to its change under a relative perturbation of the argument (conditioning of the problem itself; only '
-    'matters where factorially large terms cancel); order 0 must equal the NumPy/SciPy function bit for bit',
+    'tolerance 1e-9 * max(floor, |f^(n)(x)|, l |f^(n+1)(x)|) (hyperu 1e-7: accuracy of scipy.special.hyperu): relative to '
+    'the result or to its change under a perturbation eps*l of the argument, l = |x| for functions whose only length '
+    'scale is the distance to the singularity at 0 (log*, sqrt, reciprocal, gammaln, psi, polygamma, hyperu) and for the '
+    'multiplicative closed forms, l = max(|x|, 1) otherwise (forming 1 - x, x - i, pi/2 + x rounds x absolutely): the '
+    'magnitude of the terms entering the result; floor = 0 for the multiplicative closed forms (log, log2, log10, sqrt, '
+    'reciprocal, exp, exp2, square, negative: relative accuracy however small the result), 1 otherwise; float32 arguments: '
+    'tolerance 2e-4, n <= 4; order 0 must equal the NumPy/SciPy function bit for bit (applied to the same typed argument)',
     'points keep a margin from singularities (reciprocal: |x| >= 0.05; psi/polygamma: distance >= 0.1 from the poles '
     '0,-1,-2,...; domain boundaries: log/sqrt x >= 0.02, arcsin/arccos/arctanh |x| <= 0.97, arccosh x >= 1.03, '
     'log1p x >= -0.95) and a bounded magnitude (|x| <= 6, DOM_POS up to 20)',
@@ -348,8 +352,13 @@ def _scale(name, extras, v, n, ref, floor=1.0):
     nxt = _ref(name, extras, v, n + 1)
     if ref is None or nxt is None or not mpmath.isfinite(ref) or not mpmath.isfinite(nxt):
         raise Inconclusive('non-finite reference')
+    # size of the perturbation of the argument that any binary64 evaluation commits: relative to |x| where the function's
+    # only length scale is the distance to its singularity at 0 (and for the purely multiplicative closed forms),
+    # relative to max(|x|, 1) otherwise (poles / branch points at distance ~1, entire functions of unit scale: forming
+    # 1 - x, x - i or pi/2 + x rounds x absolutely)
+    length = abs(v) if (name in ZERO_SING or name in RELATIVE) else max(abs(v), 1.0)
     try:
-        sc = max(floor, float(abs(ref)), float(abs(mpf(v) * nxt)))
+        sc = max(floor, float(abs(ref)), float(abs(mpf(length) * nxt)))
     except OverflowError:
         raise Inconclusive('reference outside the double range')
     if not np.isfinite(sc):
@@ -381,9 +390,10 @@ def _check_values(what, got, refs, scale_fn, shape, tol, stats, floor=1.0):
             # noticeable error: measure it in the conditioning-aware scale (costs the reference of order n + 1)
             scale = scale_fn(k)
         err = abs_err / scale if scale > 0 else (0.0 if abs_err == 0 else float('inf'))
-        stats.err(min(err, 1e300))
+        if tol <= 1e-6:          # float32 cases (tolerance 2e-4) are kept out of the float64 accuracy statistic
+            stats.err(min(err, 1e300))
         if err > tol:
-            raise Violation('%s: element %d is %r, reference %s (error %.2e relative to %.3e = max(%g, |ref|, |x f^(n+1)(x)|), tol %.0e)'
+            raise Violation('%s: element %d is %r, reference %s (error %.2e relative to %.3e = max(%g, |ref|, max(|x|, L) |f^(n+1)(x)|), tol %.0e)'
                             % (what, k, g, mpmath.nstr(ref, 17), err, scale, floor, tol))
 
 
